@@ -224,3 +224,71 @@ func TestMemdbResetZeroesItsCounters(t *testing.T) {
 		t.Errorf("second life: key of first life still visible (err = %v)", err)
 	}
 }
+
+// obligations of the memdb iterator's step rules (C02, C14): an iterator over a range shows exactly the entries of
+// the range, forward and backward, and a Seek below the start lands on the first entry of the range; the value shown
+// with a key is the one stored with it.
+func TestMemdbRangeIteratorStaysInsideItsRange(t *testing.T) {
+	p := memdb.New(comparer.DefaultComparer, 0)
+	var ks []string
+	for i := 0; i < 60; i++ {
+		k := fmt.Sprintf("k%02d", (i*13)%60)
+		must(t, p.Put([]byte(k), []byte("v-"+k)))
+		ks = append(ks, k)
+	}
+	sort.Strings(ks)
+	bounds := []string{"", "a", "k00", "k07", "k075", "k30", "k59", "k60", "z"}
+	for _, lo := range append([]string{"\x00nil"}, bounds...) {
+		for _, hi := range append([]string{"\x00nil"}, bounds...) {
+			rg := &util.Range{}
+			from, to := 0, len(ks)
+			if lo != "\x00nil" {
+				rg.Start = []byte(lo)
+				from = sort.SearchStrings(ks, lo)
+			}
+			if hi != "\x00nil" {
+				rg.Limit = []byte(hi)
+				to = sort.SearchStrings(ks, hi)
+			}
+			if to < from {
+				to = from
+			}
+			want := ks[from:to]
+			name := fmt.Sprintf("range [%q, %q)", lo, hi)
+			it := p.NewIterator(rg)
+			n := 0
+			for ok := it.First(); ok; ok = it.Next() {
+				if n >= len(want) || string(it.Key()) != want[n] || string(it.Value()) != "v-"+want[n] {
+					t.Fatalf("%s: forward entry %d is %q=%q", name, n, it.Key(), it.Value())
+				}
+				n++
+			}
+			if n != len(want) {
+				t.Fatalf("%s: forward walk shows %d entries, want %d", name, n, len(want))
+			}
+			n = len(want)
+			for ok := it.Last(); ok; ok = it.Prev() {
+				n--
+				if n < 0 || string(it.Key()) != want[n] || string(it.Value()) != "v-"+want[n] {
+					t.Fatalf("%s: backward entry %d is %q=%q", name, n, it.Key(), it.Value())
+				}
+			}
+			if n != 0 {
+				t.Fatalf("%s: backward walk stops %d entries short", name, n)
+			}
+			for _, probe := range []string{"", "k00", "k29", "k295", "k59", "zz"} {
+				j := sort.SearchStrings(want, probe)
+				ok := it.Seek([]byte(probe))
+				if ok != (j < len(want)) || (ok && string(it.Key()) != want[j]) {
+					t.Fatalf("%s: Seek(%q) = %v at %q, want entry %d of %d", name, probe, ok, it.Key(), j, len(want))
+				}
+				if ok {
+					if it.Prev() != (j > 0) || (j > 0 && string(it.Key()) != want[j-1]) {
+						t.Fatalf("%s: Prev after Seek(%q) gives %q", name, probe, it.Key())
+					}
+				}
+			}
+			it.Release()
+		}
+	}
+}
